@@ -41,7 +41,8 @@ def generate(rng, tier):
                                                                  "fmt": {"indent": ind, "column": col, "trailing": tr, "sep": sep}}})
     # known finding K7: an explicit comment / entry key whose stripped text ends in a backslash
     k7docs = ["@comment{a line \\\\\n}\n@article{k, x = {y}}", "@comment{a\\ }", "@article{k\\ , x = {y}}\n@comment{fine}",
-              "% free\n@Comment{ {nested} tail\\\t}\n@string{s = {v}}"]
+              "% free\n@Comment{ {nested} tail\\\t}\n@string{s = {v}}",
+              "@a{k, x = ab\\ }", "@string{s = ab\\ }\n@a{k, y = s}", "@a{k, x = {a} # b\\ , z = {fine}}"]
     for t in k7docs:
         for ind in INDENTS[:2]:
             for col in (0, "auto"):
@@ -96,8 +97,11 @@ def impl(case):
     elif t1 != t2:
         ok, detail = False, "second write differs from the first"
     rec["oracle"] = {"ok": ok, "detail": detail[:400]}
-    if not ok and any((type(b).__name__ == "Entry" and b.key.endswith("\\")) or
-                      (type(b).__name__ == "ExplicitComment" and b.comment.endswith("\\")) for b in l1.blocks):
+    def _bs(x):
+        return isinstance(x, str) and x.endswith("\\")
+    if not ok and any((type(b).__name__ == "Entry" and (_bs(b.key) or any(_bs(f.value) for f in b.fields))) or
+                      (type(b).__name__ == "String" and _bs(b.value)) or
+                      (type(b).__name__ == "ExplicitComment" and _bs(b.comment)) for b in l1.blocks):
         rec["oracle"]["known"] = "K7"
     rec["nontrivial"] = inp["n_items"] >= 2 or any(type(b).__name__ == "Entry" and b.fields for b in l1.blocks)
     rec["summary"] = repr(t1)[:200]
